@@ -36,7 +36,12 @@ RULE = (
     "remove_request for that request is called k = 0..8 loop iterations later within the same virtual instant; a "
     "search may be removed while its SearchRequestSentEvent is being delivered: by a plain listener, by an async "
     "listener after 1..6 loop iterations or one grid step of virtual time, or by another task while such a slow "
-    "listener is awaited (deadline = call time + timeout in force, whatever the listeners do); "
+    "listener is awaited (deadline = call time + timeout in force, whatever the listeners do); a search may meet "
+    "a fault on the server link while its message is sent: the write fails (connection lost, the call raises), "
+    "the write meets back pressure for one grid step (the call returns a grid step later: creation = return time), "
+    "or the caller gives up after half a grid step of back pressure (asyncio.wait_for): a call that raised or was "
+    "cancelled must leave no new entry in SearchManager.requests and a peer reply for the ticket it used up must "
+    "produce no SearchResultEvent; "
     "scheduled replies optionally travel over a peer connection established beforehand (so that the reply is handled "
     "in the loop iteration in which a timer of the same instant runs); "
     "0..3 generated extra SearchRequestRemovedEvent listeners (plain function, coroutine without a wait, coroutine "
@@ -116,7 +121,9 @@ _search_op = st.fixed_dictionaries({
     # listener after a pause, or by another task while a slow async listener is awaited
     'hook': st.sampled_from([None, None, None, None, None, 'sync', 'async', 'task']),
     'slow': st.sampled_from(['steps', 'steps', 'tick']), 'n': st.integers(1, 6),
-    'by': st.sampled_from(['ticket', 'request'])})
+    'by': st.sampled_from(['ticket', 'request']),
+    # fault on the server link while the search message is being sent (only without a hook)
+    'fault': st.sampled_from([None] * 9 + ['slow', 'cancel', 'cancel', 'fail'])})
 _remove_op = st.fixed_dictionaries({
     'op': st.just('remove'), 'i': st.integers(0, 5), 'by': st.sampled_from(['ticket', 'request']),
     'pref': st.sampled_from(['any', 'due'])})
@@ -254,7 +261,8 @@ def _sanitise_search(case):
                         'via': 'cmd' if (cmds and o.get('via') == 'cmd') else 'api', 'q': _int(o.get('q'), 0, 3, 0),
                         'hook': o.get('hook') if o.get('hook') in ('sync', 'async', 'task') else None,
                         'slow': 'tick' if o.get('slow') == 'tick' else 'steps', 'n': _int(o.get('n'), 1, 6, 1),
-                        'by': 'request' if o.get('by') == 'request' else 'ticket'})
+                        'by': 'request' if o.get('by') == 'request' else 'ticket',
+                        'fault': o.get('fault') if o.get('fault') in ('slow', 'cancel', 'fail') else None})
         elif name == 'remove':
             ops.append({'op': 'remove', 'i': _int(o.get('i'), 0, 50, 0),
                         'by': 'request' if o.get('by') == 'request' else 'ticket',
@@ -571,21 +579,42 @@ def _run_search(case) -> CaseResult:
                 hook.update(op=op if op['hook'] else None, T=T, req=None, removed=None)
                 hook['op'] = hook['op'] or {'hook': None}     # always capture the request of the sent event
                 remover = asyncio.ensure_future(concurrent_remover(op)) if op['hook'] == 'task' else None
-                try:
+
+                async def call():
                     if op['via'] == 'api':
                         if op['kind'] == 'net':
-                            obj = await manager.search(query)
-                        elif op['kind'] == 'room':
-                            obj = await manager.search_room('room', query)
-                        else:
-                            obj = await manager.search_user('bob', query)
+                            return await manager.search(query)
+                        if op['kind'] == 'room':
+                            return await manager.search_room('room', query)
+                        return await manager.search_user('bob', query)
+                    if op['kind'] == 'net':
+                        await client.execute(GlobalSearchCommand(query))
+                    elif op['kind'] == 'room':
+                        await client.execute(RoomSearchCommand('room', query))
                     else:
-                        if op['kind'] == 'net':
-                            await client.execute(GlobalSearchCommand(query))
-                        elif op['kind'] == 'room':
-                            await client.execute(RoomSearchCommand('room', query))
-                        else:
-                            await client.execute(UserSearchCommand('bob', query))
+                        await client.execute(UserSearchCommand('bob', query))
+                    return None
+
+                # fault on the server link while the search message is sent: the write fails (connection lost), or
+                # the write meets back pressure for one grid step ('slow') and the caller gives up half way ('cancel')
+                fault = op['fault'] if not op['hook'] else None
+                writer = getattr(client.network.server_connection, '_writer', None)
+                tr = writer.transport if writer is not None else None
+                link_down = tr is None or tr.dead or tr.is_closing() or not client.session
+                if link_down:
+                    fault = None    # (lost by an earlier write failure: a search may now raise, as documented)
+                if fault == 'fail':
+                    tr.fail_writes = ConnectionResetError('sim: write failure')
+                elif fault in ('slow', 'cancel'):
+                    tr.drain_delay = TICK
+                failed = None
+                obj = None
+                try:
+                    if fault == 'cancel':
+                        obj = await asyncio.wait_for(call(), TICK / 2)
+                    else:
+                        obj = await call()
+                    if op['via'] == 'cmd':
                         # (a wishlist round may register its own requests while the command is awaited)
                         new = [o for o in manager.requests.values() if id(o) not in before and
                                id(o) not in by_obj and o.search_type != SearchType.WISHLIST]
@@ -595,26 +624,50 @@ def _run_search(case) -> CaseResult:
                             violations.append(('C18/command-search-not-registered',
                                                f'{len(new)} new entries in SearchManager.requests after {op}',
                                                None, T))
-                            continue
-                        obj = new[0]
+                        else:
+                            obj = new[0]
                 except Exception as exc:
-                    violations.append((f'C18/unexpected-exception:{type(exc).__name__}@search:{op["via"]}',
-                                       f'{op} raised {exc!r}', None, T))
+                    if fault == 'cancel' and isinstance(exc, TimeoutError):
+                        failed = 'cancelled'
+                    elif fault == 'fail' or link_down:
+                        failed = 'raised'
+                    else:
+                        violations.append((f'C18/unexpected-exception:{type(exc).__name__}@search:{op["via"]}',
+                                           f'{op} raised {exc!r}', None, T))
+                        failed = 'raised'
                     obj = None
+                if tr is not None:
+                    tr.drain_delay = 0.0
                 if remover is not None:
                     await remover
                 removed, hook['op'] = hook['removed'], None
                 slept = bool(op['hook'] in ('async', 'task') and op['slow'] == 'tick' and hook['req'] is not None)
-                if slept:
-                    state['tick'] += 1      # the slow listener held the call for exactly one grid step
+                if slept or (fault in ('slow', 'cancel') and loop.time() > T + EPS):
+                    state['tick'] += 1      # the slow listener / the slow write held the call for one grid step
                     await _until(loop, now_t())
+                if failed is not None:
+                    notes['failed:' + failed] = True
+                    # the call did not return a request: nothing may be registered for it, nothing may be reported
+                    left = [o for o in manager.requests.values() if id(o) not in before and
+                            id(o) not in by_obj and o.search_type != SearchType.WISHLIST]
+                    if left:
+                        violations.append((f'C18/failed-search-left-request-registered:{failed}',
+                                           f'{op} ({fault}) did not return, yet SearchManager.requests holds '
+                                           f'{[(o.ticket, o.query, o.timer is not None) for o in left]}', None, T))
+                    # a peer answers the ticket that the failed call has (probably) used up
+                    guess = max([r.ticket for r in reqs] + [o.ticket for o in left] + [1]) + (0 if left else 1)
+                    state['reply_id'] += 1
+                    deliver(guess, state['reply_id'])
+                    replies.append({'id': state['reply_id'], 'ticket': guess, 'arrival': now_t() + LAT,
+                                    'cls': 'failed-call', 'dup': False})
                 if obj is None:
                     continue
                 if abs(loop.time() - now_t()) > EPS:
                     violations.append(('C18/search-call-took-virtual-time', f'{op}: {loop.time() - T}', None, T))
                 if obj.query != query:
                     violations.append(('C18/request-carries-wrong-query', f'{op}: {obj.query!r}', None, T))
-                r = add_req(op['via'], obj, T, timeout, T, before)
+                created = T if op['hook'] else now_t()     # a slow write delays the registration (and the timer)
+                r = add_req(op['via'], obj, created, timeout, created, before)
                 if removed is not None:
                     r.removed_at, r.removed_seq = removed
                     r.remove_status = 'live'
@@ -957,6 +1010,9 @@ def _run_search(case) -> CaseResult:
         res.label('wishlist-rounds')
     if notes.get('hook'):
         res.label('remove-during-sent-event')
+    for k in ('failed:raised', 'failed:cancelled'):
+        if notes.get(k):
+            res.label('search-' + k)
     if notes.get('race'):
         res.label('race:remove-k-iterations-after-reply')
     res.nontrivial = bool(notes['ties'] or notes['near'])
